@@ -266,6 +266,60 @@ func registerStdlib(g *Engine) {
 		}
 		return e.tb.False()
 	}
+	// reflect: only the nil-pointer probe closeConnAndLog performs
+	ic["reflect.ValueOf"] = func(e *Exec, fn *ssa.Function, a []Value) Value {
+		box := &Loc{v: a[0]}
+		return StructVal{PtrVal{loc: box}, PtrVal{}, e.tb.Const(64, 0)}
+	}
+	reflBox := func(e *Exec, v Value) IfaceVal {
+		sv := v.(StructVal)
+		p := sv[0].(PtrVal)
+		if p.loc == nil {
+			return IfaceVal{}
+		}
+		return p.loc.v.(IfaceVal)
+	}
+	ic["(reflect.Value).Kind"] = func(e *Exec, fn *ssa.Function, a []Value) Value {
+		iv := reflBox(e, a[0])
+		k := uint64(0)
+		if iv.t != nil {
+			switch iv.t.Underlying().(type) {
+			case *types.Pointer:
+				k = 22
+			case *types.Struct:
+				k = 25
+			case *types.Interface:
+				k = 20
+			case *types.Slice:
+				k = 23
+			case *types.Map:
+				k = 21
+			case *types.Signature:
+				k = 19
+			case *types.Chan:
+				k = 18
+			default:
+				panic(e.unsupported("reflect.Kind of " + iv.t.String()))
+			}
+		}
+		return e.tb.Const(64, k)
+	}
+	ic["(reflect.Value).IsNil"] = func(e *Exec, fn *ssa.Function, a []Value) Value {
+		iv := reflBox(e, a[0])
+		switch x := iv.v.(type) {
+		case PtrVal:
+			return e.tb.Bool(x.IsNil())
+		case MapVal:
+			return e.tb.Bool(x.m == nil)
+		case SliceVal:
+			return e.tb.Bool(x.arr == nil)
+		case ChanVal:
+			return e.tb.Bool(x.c == nil)
+		case FuncVal:
+			return e.tb.Bool(x.fn == nil && x.builtin == nil && x.native == "")
+		}
+		panic(e.panicEnd("reflect: IsNil on non-nillable value"))
+	}
 	ic["errors.Is"] = func(e *Exec, fn *ssa.Function, a []Value) Value {
 		return e.tb.Bool(e.errorsIs(a[0].(IfaceVal), a[1].(IfaceVal), 0))
 	}
